@@ -1,6 +1,7 @@
 import CoercionModel.Proofs.Attempts
 import CoercionModel.Model.Skeletons
 import CoercionModel.Generated.F10
+import CoercionModel.Proofs.TranslatedExec
 set_option linter.unusedSimpArgs false
 /-
   C05 — Attempts: at most Retries+1 calls, stop on success/permanent, all recorded.
@@ -195,5 +196,28 @@ theorem facts_skeleton :
     Generated.F10.actionsExec = Skeletons.actionsExec ∧
     Generated.F10.actionsExecute = Skeletons.actionsExecute := by
   decide
+
+/-! ### translated code: the decision tail of exec, regenerated from actions.go on every run (Generated/T4.lean) -/
+
+/-- what exec records (error kind, whether a response is kept) and what it returns to the Retry loop, translated
+    from the Go source, is `classify` and the loop's own stop/retry rule: timeout → retryable with nothing stored;
+    a response of the wrong type → permanent and dropped, whatever error came with it; otherwise the plugin's
+    error decides -/
+theorem translated_exec_tail (o : Outcome) :
+    let r := Generated.T4.execTail o.overrun o.resp (TranslatedExec.toErrKind o.err)
+    r.1 = (classify o).1 ∧ (r.2.1 != RespKind.none) = (classify o).2 ∧ r.2.2 = TranslatedExec.retOf (classify o).1 :=
+  TranslatedExec.execTail_eq o
+
+/-- the model's Retry loop makes one more call exactly when the translated exec returns a retryable error -/
+theorem retry_loop_follows_exec (sc : Nat → Outcome) (fuel : Nat) (s : St) :
+    let a := record (sc s.calls) s.clk
+    let s' : St := { attempts := s.attempts ++ [a], evs := s.evs ++ [.enter s.calls, .exit s.calls, .write .running (s.attempts.length + 1)],
+                     clk := s.clk + 2, calls := s.calls + 1 }
+    loop sc (fuel + 1) s =
+      (match TranslatedExec.retOf a.err with
+       | .ok => (s', false)
+       | .permanent => (s', true)
+       | .retry => loop sc fuel s') :=
+  TranslatedExec.loop_follows_ret sc fuel s
 
 end Coercion.C05
